@@ -1,6 +1,6 @@
 CONSTANT Mode = "bfs"
 CONSTANT LeafSet = "quick"
-CONSTANT GrowSet = "small"
+CONSTANT GrowSet = "tiny"
 CONSTANT Depth = 2
 CONSTANT Names <- NamesDef
 INIT Init
